@@ -175,15 +175,22 @@ def stretch_call(rnd, name, box, params):
     vals = [v for i in value_pos for v in box[i]] + [params[k] for k in value_par]
     lo, hi = min(vals) - 1, max(vals) + 1
     gaps = GAPS[:14] if name.startswith("affine") else GAPS
+    # one call in six (not the linear constraints, whose products have their own stream) spans more than 2^31: every bound is a
+    # 32-bit integer, the distance between two of them is not
+    huge = (not name.startswith("affine")) and rnd.random() < 0.17
+    if huge:
+        gaps = gaps + [2 ** 30, 2 ** 30, 2 ** 31 - 5]
     while True:
         f = {}
         cur = 0
         for u in range(lo, hi + 1):
             f[u] = cur
             cur += rnd.choice(gaps)
-        if cur < 2 ** 30:
+        if cur < (2 ** 32 - 2 ** 18 if huge else 2 ** 30):
             break
     shift = rnd.choice([0, -f[hi] // 2, -f[hi], rnd.randint(-1000, 1000)])
+    if huge or f[hi] >= 2 ** 30:
+        shift = -f[hi] // 2 + rnd.randint(-1000, 1000)  # centred: all values within +-(2^31 - 2^17)
     big_coef = name.startswith("affine") and rnd.random() < 0.3
     if big_coef:
         # large coefficients on values up to ~10^5: every coefficient, bound and the constant are 32-bit integers, the
